@@ -91,10 +91,13 @@ CLAIMS.update({
         "the monitor compares deliveries with ground-truth events taken at the market's own methods.",
    note=S_NOTE),
  "C11": dict(level="proof", suites=["S"], design="5/C11",
-   technique="Coq local theorems (per fill / per round) + differential correspondence of the callback stream + monitor against ground truth; run-level closed form not proved (partial)",
+   technique="Coq proof over whole runs of the Level-S model (callback stream = what the born records call for, by an owed-list invariant lifted through the runner) + local theorems per fill / per round + differential correspondence of the callback stream + monitor against ground truth",
    text="Theorems C11_* (props/C11.v): the notification of a fill emits the buyer's callback then the seller's with that fill's record (twice to one agent for a self-trade) and changes no holdings; "
-        "holdings are updated for the whole round before the first notification. The exactly-once / no-third-party claim over whole runs is decided by the correspondence of every callback event "
-        "(agent, kind, record, holdings at that moment) with the model and by the monitor (callbacks vs ground-truth acceptances and fills as multisets and in order).",
+        "holdings are updated for the whole round before the first notification. Whole runs (theories/SimCallbacks.v): for every configuration, tape of runner decisions, agent behaviour "
+        "(normal and high-frequency) and fundamental path, a run that ends without exception has a callback stream equal, in order, to what the records born in the markets call for - "
+        "owner per accepted order, owner of the cancelled order per accepted cancel, buyer then seller per fill, nobody per expiry - so each party is told exactly once and nobody else "
+        "(C11_only_parties_are_notified); at every request boundary nothing is owed. Every callback event (agent, kind, record, holdings at that moment) is also compared with the model on "
+        "real runs and the monitor compares callbacks with ground-truth acceptances and fills.",
    note=S_NOTE),
  "C13": dict(level="proof", suites=["S"], design="5/C13",
    technique="Coq proof of dispatch exactness (multiset equality) for every hook table + invariance of the table over the run + differential correspondence of probe hook calls",
